@@ -1071,25 +1071,31 @@ fn run_scenario(kit: &Kit, sc: &Scenario, work: &str, exe: &Path, gen_path: &str
 // ---------------------------------------------------------------------------------------------
 fn startup_mode(out: &mut Out, work: &str, exe: &Path) {
 	let mut kit = Kit::new(&format!("{}/builder", work));
-	let mut tip = 0usize;
-	let mut trunk = vec![0usize];
-	// VERIF_STARTUP_SPEND_GENESIS=1 (probe, not a registered run): block 5 spends the genesis coinbase
-	let spend_genesis = std::env::var("VERIF_STARTUP_SPEND_GENESIS").is_ok();
-	for h in 1..=9 {
-		let specs = if spend_genesis && h == 5 {
-			let v = kit.outs[0].value;
-			vec![TxSpec { inputs: vec![0], outputs: vec![(v - 1, None)], kernel: KSpec::Plain(1) }]
-		} else {
-			vec![]
-		};
-		match kit.new_block(tip, 2, &specs) {
-			Ok(id) => {
-				tip = id;
-				trunk.push(id);
+	// two chains above genesis: `spend` (built first: b1..b9, its fifth block spends the genesis
+	// coinbase) and `trunk` (coinbase-only)
+	let mut build_chain = |kit: &mut Kit, out: &mut Out, spend_at: u64| -> Vec<usize> {
+		let mut tip = 0usize;
+		let mut v = vec![0usize];
+		for h in 1..=9u64 {
+			let specs = if h == spend_at {
+				let val = kit.outs[0].value;
+				vec![TxSpec { inputs: vec![0], outputs: vec![(val - 1, None)], kernel: KSpec::Plain(1) }]
+			} else {
+				vec![]
+			};
+			match kit.new_block(tip, 2, &specs) {
+				Ok(id) => {
+					tip = id;
+					v.push(id);
+				}
+				Err(e) => out.raw(&format!("#STAT startup generator-error h={} {}", h, e)),
 			}
-			Err(e) => out.raw(&format!("#STAT startup generator-error h={} {}", h, e)),
 		}
-	}
+		v
+	};
+	let spend = build_chain(&mut kit, out, 5);
+	let trunk = build_chain(&mut kit, out, 0);
+	let tip = *trunk.last().unwrap();
 	std::fs::create_dir_all(format!("{}/blocks", work)).unwrap();
 	let gen_path = format!("{}/blocks/genesis.bin", work);
 	write_block(&gen_path, &kit.genesis);
@@ -1118,6 +1124,26 @@ fn startup_mode(out: &mut Out, work: &str, exe: &Path) {
 		"aof.flush:after-append[kernel/pmmr_size.bin]",
 		"aof.flush:after-sync[kernel/pmmr_size.bin]",
 		"aof.flush:before-append[kernel/pmmr_data.bin]",
+	];
+	// the recorded instances of known finding C09-genesis-reinstall-duplicates-leaf (15 points: genesis is
+	// installed a second time on top of stale output + range-proof files; seen only by a chain that
+	// spends the genesis coinbase); the LMDB label is the commit of setup_head (the last but one)
+	const RECORDED_DUP: [&str; 15] = [
+		"aof.flush:after-append[rangeproof/pmmr_hash.bin]",
+		"aof.flush:after-sync[rangeproof/pmmr_hash.bin]",
+		"aof.flush:before-append[rangeproof/pmmr_data.bin]",
+		"aof.flush:after-append[rangeproof/pmmr_data.bin]",
+		"aof.flush:after-sync[rangeproof/pmmr_data.bin]",
+		"tmpfile:before-rename[rangeproof/pmmr_leaf.bin]",
+		"tmpfile:after-rename[rangeproof/pmmr_leaf.bin]",
+		"tmpfile:before-rename[rangeproof/pmmr_prun.bin]",
+		"tmpfile:after-rename[rangeproof/pmmr_prun.bin]",
+		"aof.flush:before-append[kernel/pmmr_hash.bin]",
+		"aof.flush:after-append[kernel/pmmr_data.bin]",
+		"aof.flush:after-sync[kernel/pmmr_data.bin]",
+		"tmpfile:before-rename[kernel/pmmr_prun.bin]",
+		"tmpfile:after-rename[kernel/pmmr_prun.bin]",
+		"lmdb:before-commit",
 	];
 	let describe = |dir: &str, kit: &Kit| -> String {
 		let g = kit.genesis.clone();
@@ -1154,59 +1180,72 @@ fn startup_mode(out: &mut Out, work: &str, exe: &Path) {
 		out.line("crash startup empty first", &first);
 		out.line("crash startup empty again", &again);
 		let mut probes = 0u64;
-		for m in 1..=labels.len() {
-			let d = format!("{}/st-empty-{}", work, m);
-			std::fs::create_dir_all(&d).unwrap();
-			let code = Command::new(exe).args(["reopen", &d, &gen_path, &m.to_string()]).status().unwrap().code().unwrap_or(-1);
-			let mut r = describe(&d, &kit);
-			// the node must also be able to go on: the trunk is delivered to it
-			if r.starts_with("open=ok") {
-				let g = kit.genesis.clone();
-				let d2 = d.clone();
-				let kit_ref = &kit;
-				let trunk_ref = &trunk;
-				let fin = match catch(std::panic::AssertUnwindSafe(move || {
-					let c = init_chain(&d2, g)?;
-					let mut firsterr = String::new();
-					for i in &trunk_ref[1..] {
-						if let Err(e) = c.process_block(kit_ref.blks[*i].block.clone(), grin_chain::Options::SKIP_POW) {
-							if firsterr.is_empty() {
-								firsterr = format!("b{}:{}", i, error_class(&e));
+		let mut probes_dup = 0u64;
+		let before_commits: Vec<usize> = labels.iter().enumerate().filter(|(_, l)| l.starts_with("lmdb:before-commit")).map(|(i, _)| i + 1).collect();
+		let setup_commit = if before_commits.len() >= 2 { before_commits[before_commits.len() - 2] } else { 0 };
+		for (variant, chain) in [("empty-killed", &trunk), ("empty-killed-spend", &spend)] {
+			let chain_tip = *chain.last().unwrap();
+			for m in 1..=labels.len() {
+				let d = format!("{}/st-{}-{}", work, variant, m);
+				std::fs::create_dir_all(&d).unwrap();
+				let code = Command::new(exe).args(["reopen", &d, &gen_path, &m.to_string()]).status().unwrap().code().unwrap_or(-1);
+				let mut r = describe(&d, &kit);
+				// the node must also be able to go on: the chain is delivered to it
+				if r.starts_with("open=ok") {
+					let g = kit.genesis.clone();
+					let d2 = d.clone();
+					let kit_ref = &kit;
+					let fin = match catch(std::panic::AssertUnwindSafe(move || {
+						let c = init_chain(&d2, g)?;
+						let mut firsterr = String::new();
+						for i in &chain[1..] {
+							if let Err(e) = c.process_block(kit_ref.blks[*i].block.clone(), grin_chain::Options::SKIP_POW) {
+								if firsterr.is_empty() {
+									firsterr = format!("b{}:{}", i, error_class(&e));
+								}
 							}
 						}
-					}
-					let s = snap(&c, kit_ref);
-					Ok::<String, grin_chain::Error>(format!("head={} first_err={}", s.head, if firsterr.is_empty() { "-".to_string() } else { firsterr }))
-				})) {
-					Ok(Ok(x)) => x,
-					Ok(Err(e)) => format!("reopen-err:{}", error_class(&e)),
-					Err(_) => "panic".to_string(),
-				};
-				r = format!("{} sync:{}", r, fin);
-			}
-			out.line(&format!("crash startup empty-killed {} {}", m, labels[m - 1]), &r);
-			if code != 86 {
-				out.raw(&format!("#ORACLE-FAIL C09 harness: first-start child did not die at the armed step m={} exit={}", m, code));
-			}
-			let good = r.starts_with("open=ok head=b0 hhead=b0 validate=ok") && r.contains(&format!("sync:head=b{} first_err=-", tip));
-			let bare = labels[m - 1].split("(after:").next().unwrap_or("").to_string();
-			let recorded = RECORDED.contains(&bare.as_str());
-			if !good {
-				let text = format!(
-					"C09 startup scenario=first-start step={}/{} label={} :: {}",
-					m, labels.len(), labels[m - 1], r.chars().take(200).collect::<String>()
-				);
-				if recorded {
-					probes += 1;
-					out.raw(&format!("#KNOWN-PROBE {}", text));
-				} else {
-					out.raw(&format!("#ORACLE-FAIL {}", text));
+						let s = snap(&c, kit_ref);
+						Ok::<String, grin_chain::Error>(format!("head={} first_err={}", s.head, if firsterr.is_empty() { "-".to_string() } else { firsterr }))
+					})) {
+						Ok(Ok(x)) => x,
+						Ok(Err(e)) => format!("reopen-err:{}", error_class(&e)),
+						Err(_) => "panic".to_string(),
+					};
+					let reached = fin.starts_with(&format!("head=b{} ", chain_tip));
+					r = format!("{} sync:{} chain={}", r, fin, if reached { "ok" } else { "refused" });
 				}
-			} else if recorded {
-				out.raw(&format!("#STAT startup: recorded instance {} of C09-genesis-install-window did not fail", labels[m - 1]));
+				out.line(&format!("crash startup {} {} {}", variant, m, labels[m - 1]), &r);
+				if code != 86 {
+					out.raw(&format!("#ORACLE-FAIL C09 harness: first-start child did not die at the armed step m={} exit={}", m, code));
+				}
+				let good = r.starts_with("open=ok head=b0 hhead=b0 validate=ok") && r.contains(&format!("sync:head=b{} first_err=-", chain_tip));
+				let bare = labels[m - 1].split("(after:").next().unwrap_or("").to_string();
+				let recorded = RECORDED.contains(&bare.as_str());
+				let recorded_dup = variant == "empty-killed-spend"
+					&& RECORDED_DUP.contains(&bare.as_str())
+					&& (!bare.starts_with("lmdb:") || m == setup_commit);
+				if !good {
+					let text = format!(
+						"C09 startup scenario=first-start step={}/{} label={} :: {}",
+						m, labels.len(), labels[m - 1], r.chars().take(200).collect::<String>()
+					);
+					if recorded && r.starts_with("open=err") {
+						probes += 1;
+						out.raw(&format!("#KNOWN-PROBE {}", text));
+					} else if recorded_dup && r.starts_with("open=ok") {
+						probes_dup += 1;
+						out.raw(&format!("#KNOWN-PROBE {}", text));
+					} else {
+						out.raw(&format!("#ORACLE-FAIL {}", text));
+					}
+				} else if recorded || recorded_dup {
+					out.raw(&format!("#STAT startup: recorded instance {} ({}) did not fail", labels[m - 1], variant));
+				}
+				let _ = std::fs::remove_dir_all(&d);
 			}
-			let _ = std::fs::remove_dir_all(&d);
 		}
+		out.raw(&format!("#STAT startup: genesis-reinstall-duplicates-leaf instances reproduced={} (setup_head commit = step {})", probes_dup, setup_commit));
 		out.raw(&format!("#STAT startup empty: crash points of the first start={} recorded_instances_reproduced={}", labels.len(), probes));
 	}
 	// ---- head in the database, txhashset directory missing ----
